@@ -21,6 +21,7 @@ let disp_char = function Default -> 'D' | Handler false -> 'H' | Handler true ->
 
 let print_event buf e =
   let add = Buffer.add_string buf in
+  match e with EDrop (_, _) -> () | _ ->     (* ghost event: not observable *)
   (match e with
    | EOp (OInit _, _) -> add "i"
    | EOp (ORaise _, r) -> add ("d" ^ string_of_z r)
